@@ -342,11 +342,11 @@ func runCase(r *vrun.Run, c caseSpec, scratch string) {
 		anyFileOnBackend = filepath.Join(src, filepath.FromSlash(strings.TrimPrefix(f, "/")))
 	}
 	if zerr == nil {
-		zfs, _, oerr := filesystem.NewZipFileSystem(vfs, zipPath, limitsFor(c.ViewLim))
+		zfs, zfile, oerr := filesystem.NewZipFileSystem(vfs, zipPath, limitsFor(c.ViewLim))
 		if oerr != nil {
 			rp.v(vrun.Sig{"phase": "view", "fs": "zip", "api": "open", "effect": "error:" + kindOf(oerr)}, fmt.Sprintf("NewZipFileSystem over the library's own archive failed: %v", oerr), nil)
 		} else {
-			viewAndSweeps(r, rp, ctx, "zip", zfs, vfs, base, zipPath, srcSnap, children, f, d, anyFileOnBackend)
+			viewAndSweeps(r, rp, ctx, "zip", zfs, zfile, vfs, base, zipPath, srcSnap, children, f, d, anyFileOnBackend)
 		}
 	}
 	tb, terr := buildTar(c.Nodes)
@@ -357,12 +357,12 @@ func runCase(r *vrun.Run, c caseSpec, scratch string) {
 	if werr := afero.WriteFile(base, tarPath, tb, 0o644); werr != nil {
 		r.Fatalf("writing tar: %v", werr)
 	}
-	tfs, _, oerr := filesystem.NewTarFileSystem(vfs, tarPath, limitsFor(c.ViewLim))
+	tfs, tfile, oerr := filesystem.NewTarFileSystem(vfs, tarPath, limitsFor(c.ViewLim))
 	if oerr != nil {
 		rp.v(vrun.Sig{"phase": "view", "fs": "tar", "api": "open", "effect": "error:" + kindOf(oerr)}, fmt.Sprintf("NewTarFileSystem failed: %v", oerr), nil)
 		return
 	}
-	viewAndSweeps(r, rp, ctx, "tar", tfs, vfs, base, tarPath, srcSnap, children, f, d, anyFileOnBackend)
+	viewAndSweeps(r, rp, ctx, "tar", tfs, tfile, vfs, base, tarPath, srcSnap, children, f, d, anyFileOnBackend)
 }
 
 func roundTrip(r *vrun.Run, rp *reporter, ctx context.Context, vfs filesystem.FS, c *caseSpec, take func(string) (snap.Snap, error),
@@ -686,7 +686,7 @@ func fingerprint(v filesystem.FS) string {
 	return strings.Join(l, "\n")
 }
 
-func viewAndSweeps(r *vrun.Run, rp *reporter, ctx context.Context, fsName string, v filesystem.ICloseableFS, backendFS filesystem.FS, base afero.Fs,
+func viewAndSweeps(r *vrun.Run, rp *reporter, ctx context.Context, fsName string, v filesystem.ICloseableFS, archive filesystem.File, backendFS filesystem.FS, base afero.Fs,
 	archPath string, src snap.Snap, children map[string]map[string]bool, f, d, fileOnBackend string) {
 	closed := false
 	defer func() {
@@ -770,11 +770,31 @@ func viewAndSweeps(r *vrun.Run, rp *reporter, ctx context.Context, fsName string
 			_ = e.dh.Close()
 		}
 	}()
+	// closing histories: the archive file handed over at opening may be closed by its owner before or after the view
+	history := []string{"view", "view", "file-then-view", "view-then-file", "view-twice"}[rp.c.Index%5]
+	if archive == nil {
+		history = "view"
+	}
+	r.ObsSet("closing_histories", fsName+"/"+history)
+	if history == "file-then-view" {
+		_ = archive.Close()
+	}
 	cerr = v.Close()
 	closed = true
 	if cerr != nil {
+		if history == "file-then-view" {
+			// Close() says the view could not be closed: the clause is about a view which was closed
+			r.Obs("closed_sweeps_skipped_close_reported_an_error_after_the_file_was_closed", 1)
+			return
+		}
 		r.Inconclusive("Close() of the archive filesystem returned an error")
 		return
+	}
+	switch history {
+	case "view-then-file":
+		_ = archive.Close()
+	case "view-twice":
+		_ = v.Close()
 	}
 	for _, s := range all {
 		o := safeCall(s, e)
